@@ -9,12 +9,12 @@ import "fmt"
 type Kind int
 
 const (
-	SYN     Kind = iota // SYN, no payload
-	SYNDATA             // SYN carrying D[0:1)
-	DATA                // D[A:B), optionally with FIN when B == n
-	FIN                 // bare FIN at the end of the stream
-	RST                 // bare RST at the end of the stream
-	FLUSHOLD            // age flush with a cut-off after everything seen so far
+	SYN      Kind = iota // SYN, no payload
+	SYNDATA              // SYN carrying D[0:1)
+	DATA                 // D[A:B), optionally with FIN when B == n
+	FIN                  // bare FIN at the end of the stream
+	RST                  // bare RST at the end of the stream
+	FLUSHOLD             // age flush with a cut-off after everything seen so far
 )
 
 type Event struct {
@@ -103,6 +103,8 @@ type Delivery struct {
 	// Saved bytes presented again in front of the new data (reassembly only)
 	Saved    []byte
 	HasSaved bool
+	// SavedMayDropOnSkip: kept bytes need not be presented when the hand-over starts with a skip
+	SavedMayDropOnSkip bool
 }
 
 // Dir is the sender-side model of one direction.
@@ -146,11 +148,11 @@ func (d *Dir) MaxArrived() int {
 // Inst is the oracle state of one stream instance.
 type Inst struct {
 	Deliveries int
-	Strict     bool // the SYN was processed before anything was handed over
-	Pos        int  // bytes accounted for: delivered or announced as skipped
-	Ended      bool // a delivery with End was made
-	Completed  int  // ReassemblyComplete calls
-	AfterDone  bool // data callback after completion
+	Strict     bool   // the SYN was processed before anything was handed over
+	Pos        int    // bytes accounted for: delivered or announced as skipped
+	Ended      bool   // a delivery with End was made
+	Completed  int    // ReassemblyComplete calls
+	AfterDone  bool   // data callback after completion
 	keep       []byte // bytes the stream asked to keep at the last hand-over (reassembly)
 	hasKeep    bool
 }
@@ -175,9 +177,6 @@ func (in *Inst) Deliver(dir *Dir, d Delivery, ctx StepCtx) (string, string) {
 	if !in.Strict {
 		return "", ""
 	}
-	if !first && d.Start {
-		return "start-flag-twice", "Start set on a later hand-over"
-	}
 	if d.Skip < 0 {
 		return "skip-unknown-after-start", fmt.Sprintf("skip=%d on a stream whose start was seen", d.Skip)
 	}
@@ -200,7 +199,7 @@ func (in *Inst) Deliver(dir *Dir, d Delivery, ctx StepCtx) (string, string) {
 	}
 	if d.HasSaved {
 		if in.hasKeep {
-			if string(d.Saved) != string(in.keep) {
+			if string(d.Saved) != string(in.keep) && !(d.SavedMayDropOnSkip && d.Skip > 0 && len(d.Saved) == 0) {
 				return "kept-bytes-wrong", fmt.Sprintf("stream asked to keep %q, was presented %q", in.keep, d.Saved)
 			}
 		} else if len(d.Saved) != 0 {
